@@ -1,5 +1,6 @@
 import XzVerif.Proofs.XzSound
 import XzVerif.Proofs.GoSrcXz
+import XzVerif.Proofs.GoSrcXz2
 import XzVerif.Proofs.LazyXz
 import XzVerif.Proofs.Fuel
 /-
@@ -114,6 +115,38 @@ theorem C04_source_readUvarint (b : ByteArray) (pos lim : Nat) (hl : lim ≤ b.s
 
 theorem C04_source_padLen (n : BitVec 64) (h : n.toNat < 2 ^ 63) : (GoSrc.padLen n).toNat = Xz.padLen n.toNat :=
   GoSrcP.padLen_spec n h
+
+/-- format.go from the source: the optional size fields of a block header (`readSizeInBlockHeader`: absent = −1; 2^63 and
+    above rejected — the boundary two seeded changes moved), an index record (`readRecord`: two uvarints, a set top bit
+    rejected) and the check ids (`verifyFlags` = `Xz.checkSize` defined) are the reader model's rules -/
+theorem C04_source_size_fields_and_records (b : ByteArray) (pos lim : Nat) (hl : lim ≤ b.size) (fuel : Nat) (hf : 12 ≤ fuel) :
+    (∀ r : Go.ByteReader, GoSrc.readSizeInBlockHeader fuel r false = Go.Res.ok (BitVec.ofInt 64 (-1), Go.Err.nil, r)) ∧
+    (match Xz.readUvarint b pos lim with
+     | .ok x n =>
+       if 2 ^ 63 ≤ x then
+         ∃ r', GoSrc.readSizeInBlockHeader fuel { inp := GoSrcP.sliceBV b pos lim } true
+                 = Go.Res.ok (0#64, Go.Err.new "xz: size overflow in block header", r')
+       else
+         ∃ r', GoSrc.readSizeInBlockHeader fuel { inp := GoSrcP.sliceBV b pos lim } true
+                 = Go.Res.ok (BitVec.ofNat 64 x, Go.Err.nil, r') ∧ r'.inp = GoSrcP.sliceBV b (pos + n) lim
+     | .eof _ => ∃ r', GoSrc.readSizeInBlockHeader fuel { inp := GoSrcP.sliceBV b pos lim } true
+                 = Go.Res.ok (0#64, Go.Err.named "io.EOF", r')
+     | .overflow => ∃ r', GoSrc.readSizeInBlockHeader fuel { inp := GoSrcP.sliceBV b pos lim } true
+                 = Go.Res.ok (0#64, Go.Err.named "errOverflowU64", r')) ∧
+    (match GoSrcP.modelRecord b pos lim with
+     | .ok a c n => ∃ r', GoSrc.readRecord fuel { inp := GoSrcP.sliceBV b pos lim }
+           = Go.Res.ok ({ unpaddedSize := BitVec.ofNat 64 a, uncompressedSize := BitVec.ofNat 64 c }, BitVec.ofNat 64 n, Go.Err.nil, r')
+           ∧ r'.inp = GoSrcP.sliceBV b (pos + n) lim
+     | .eof => ∃ rc n r', GoSrc.readRecord fuel { inp := GoSrcP.sliceBV b pos lim } = Go.Res.ok (rc, n, Go.Err.named "io.EOF", r')
+     | .overflow => ∃ rc n r', GoSrc.readRecord fuel { inp := GoSrcP.sliceBV b pos lim }
+           = Go.Res.ok (rc, n, Go.Err.named "errOverflowU64", r')
+     | .negUnpadded => ∃ rc n r', GoSrc.readRecord fuel { inp := GoSrcP.sliceBV b pos lim }
+           = Go.Res.ok (rc, n, Go.Err.new "xz: unpadded size negative", r')
+     | .negUncompressed => ∃ rc n r', GoSrc.readRecord fuel { inp := GoSrcP.sliceBV b pos lim }
+           = Go.Res.ok (rc, n, Go.Err.new "xz: uncompressed size negative", r')) ∧
+    (∀ f : BitVec 8, GoSrc.verifyFlags f = Go.Err.nil ↔ (Xz.checkSize f.toNat).isSome) :=
+  ⟨fun r => GoSrcP.readSizeInBlockHeader_absent fuel r, GoSrcP.readSizeInBlockHeader_spec b pos lim hl fuel hf,
+   GoSrcP.readRecord_spec b pos lim hl fuel hf, fun f => (GoSrcP.verifyFlags_spec f).1⟩
 
 theorem C04_source_translation_complete : GoSrc.failures = [] := by decide
 
